@@ -152,8 +152,14 @@ pub(crate) trait CMsgHdr {
     fn len(&self) -> usize;
 }
 
+/// Size of the control message buffers used for sending and receiving
+///
+/// Must have room for every control message the kernel may attach to a single received datagram:
+/// on Linux that is a receive timestamp (32 bytes), the `UDP_GRO` segment size (24 bytes),
+/// `in6_pktinfo` (40 bytes) and the traffic class (24 bytes). Anything that does not fit is
+/// silently truncated, and the traffic class carrying the ECN bits comes last.
 #[cfg(unix)]
-pub(crate) const LEN: usize = 96;
+pub(crate) const LEN: usize = 128;
 
 #[cfg(feature = "__verif-hooks")]
 #[allow(missing_docs, unreachable_pub, dead_code, unused_imports, unused_qualifications)]
